@@ -23,7 +23,7 @@
 use math::{
     fft::real_u64::{fft4_real, ifft4_real_unreduced},
     fields::f64::BaseElement,
-    FieldElement,
+    FieldElement, StarkField,
 };
 
 // MDS matrix in frequency domain.
@@ -62,7 +62,9 @@ pub(crate) fn mds_multiply(state: &mut [BaseElement; 12]) {
         let z = (s_hi << 32) - s_hi;
         let (res, over) = s_lo.overflowing_add(z);
 
-        result[r] = BaseElement::from_mont(res.wrapping_add(0u32.wrapping_sub(over as u32) as u64));
+        let res = res.wrapping_add(0u32.wrapping_sub(over as u32) as u64);
+        // res is congruent to the sum but may be in [M, 2^64): reduce it into [0, M)
+        result[r] = BaseElement::from_mont(if res >= BaseElement::MODULUS { res - BaseElement::MODULUS } else { res });
     }
     *state = result;
 }
